@@ -19,14 +19,15 @@ non-degenerate critical points at arbitrary sub-grid positions (both psi signs, 
 resolutions, symmetric and offset domains).
 """
 import itertools
+import types
 import time
 
 import numpy
 import z3
 
 from vc import transform
-from vc.shim import numpy_shimmed
-from vc.sym import And, Or, Not, Sym, spec_mode
+from vc.shim import numpy_shimmed, patched
+from vc.sym import And, Or, Not, Sym, ite, spec_mode
 
 LEVEL = "proof"
 FN = "hypnotoad.utils.critical:find_critical"
@@ -260,6 +261,99 @@ def make_tail_run(family):
     return run
 
 
+FN_MR = "hypnotoad.cases.tokamak:TokamakEquilibrium.makeRegions"
+
+
+class Described(Exception):
+    pass
+
+
+def make_regions_run(nxp):
+    """Real makeRegions up to the hand-over to describeSingle/DoubleNull: which X-points are
+    kept (normalised psi below psinorm_sol AND inside the wall), in which order, and which
+    description is chosen.  polygons.intersect is used through its contract (C20): the stub
+    answers with a fresh boolean per call and records what it was asked."""
+
+    def run(ctx):
+        from hypnotoad.cases import tokamak as T
+        from hypnotoad.core.equilibrium import Point2D
+
+        eq = object.__new__(T.TokamakEquilibrium)
+        eq.psi_axis = ctx.real("psi_axis")
+        psis = [ctx.real("psi_x%d" % k) for k in range(nxp)]
+        ctx.assume(And(*[p_ != eq.psi_axis for p_ in psis]))  # pre: no X-point has the flux of the magnetic axis
+        eq.psi_sep = list(psis)
+        eq.x_points = [Point2D(ctx.real("Rx%d" % k), ctx.real("Zx%d" % k)) for k in range(nxp)]
+        xs = list(eq.x_points)
+        psinorm_sol = ctx.real("psinorm_sol")
+        eq.user_options = types.SimpleNamespace(psi_core=None, psinorm_core=0.9, psi_sol=None, psinorm_sol=psinorm_sol, psi_sol_inner=None, psinorm_sol_inner=None, psi_pf_lower=None, psinorm_pf_lower=0.9, psi_pf_upper=None, psinorm_pf_upper=0.9, poloidal_spacing_delta_psi=0.001)
+        wall = [(1.0, -1.0), (2.0, -1.2), (2.2, 1.0), (0.9, 1.1)]  # anticlockwise, NOT explicitly closed (C11 wall contract)
+        eq.wall = [Point2D(*w) for w in wall]
+        asked = []
+
+        def intersect_stub(r1, z1, r2, z2, closed1=True, closed2=True):
+            b = ctx.bool("wall_crossed_%d" % len(asked))
+            asked.append(dict(r1=list(r1), z1=list(z1), r2=list(r2), z2=list(z2), closed1=closed1, closed2=closed2, answer=b))
+            return b
+
+        chosen = []
+
+        def single(self=None):
+            chosen.append("single")
+            raise Described()
+
+        def double(self=None):
+            chosen.append("double")
+            raise Described()
+
+        eq.describeSingleNull, eq.describeDoubleNull = single, double
+        err = None
+        with patched((T.polygons, "intersect", intersect_stub), (T, "print", lambda *a, **k: None)):
+            try:
+                T.TokamakEquilibrium.makeRegions(eq)
+            except Described:
+                pass
+            except ValueError as e:
+                err = e
+        with spec_mode():
+            Rc, Zc = 0.5 * (0.9 + 2.2), 0.5 * (-1.2 + 1.1)
+            # every question put to polygons.intersect: centre of the wall's bounding box -> an X-point, against ALL wall edges
+            for q in asked:
+                k = next((i for i, x in enumerate(xs) if q["r1"][1] is x.R and q["z1"][1] is x.Z), None)
+                ctx.oblige(TRUE(k is not None and abs(q["r1"][0] - Rc) < 1e-12 and abs(q["z1"][0] - Zc) < 1e-12), "inside-wall test: segment from the centre of the wall's bounding box to the X-point")
+                ctx.oblige(TRUE(q["r2"] == [w[0] for w in wall] and q["z2"] == [w[1] for w in wall] and q["closed2"] is True), "inside-wall test: against every wall edge INCLUDING the closing edge (the wall list is not explicitly closed)")
+                q["k"] = k
+            pn = lambda v: (v - eq.psi_axis) / (psis[0] - eq.psi_axis)
+            keep_spec = []
+            for k in range(nxp):
+                in_range = pn(psis[k]) < psinorm_sol
+                qs = [q for q in asked if q.get("k") == k]
+                crossed = qs[0]["answer"] if qs else None
+                keep_spec.append((in_range, crossed))
+            kept = [] if err is not None and not chosen else [next(i for i, x in enumerate(xs) if x is p) for p in eq.x_points]
+            if chosen:
+                ctx.oblige(TRUE(kept == sorted(kept)), "kept X-points keep their order (primary first)")
+                ctx.oblige(TRUE([eq.psi_sep[j] is psis[k] for j, k in enumerate(kept)] == [True] * len(kept)), "psi_sep stays aligned with x_points")
+                for k in range(nxp):
+                    in_range, crossed = keep_spec[k]
+                    if k in kept:
+                        ctx.oblige(in_range, "kept X-point %d has normalised psi below psinorm_sol" % k)
+                        ctx.oblige(TRUE(crossed is not None), "kept X-point %d was tested against the wall" % k)
+                        if crossed is not None:
+                            ctx.oblige(Not(crossed), "kept X-point %d is inside the wall" % k)
+                    else:
+                        ctx.oblige(Or(Not(in_range), crossed if crossed is not None else TRUE(False)), "dropped X-point %d is out of range or outside the wall" % k)
+                ctx.oblige(TRUE(chosen == ["single" if len(kept) == 1 else "double"] and len(kept) in (1, 2)), "one X-point kept: single null; two: double null")
+            else:
+                n_keep = [And(a, Not(c)) if c is not None else TRUE(False) for a, c in keep_spec]
+                # refused: the number of X-points in range and inside the wall is not 1 or 2
+                cnt = sum([ite(c, 1, 0) for c in n_keep]) if n_keep else 0
+                ctx.oblige(Or(cnt == 0, cnt > 2) if n_keep else TRUE(True), "refused (ValueError) only if the number of admissible X-points is 0 or more than 2")
+        return chosen
+
+    return run
+
+
 def planted(S):
     """Smooth psi = sum of Gaussians with off-grid centres; reference critical points from an
     independent Newton solve on the analytic gradient."""
@@ -381,6 +475,9 @@ def build(S):
         S.contract("find_critical[5x5, maxits=1]", FN, run_newton, expected_exceptions=(numpy.linalg.LinAlgError,), raises_ok=lambda p: True, shape="5x5 grid (one interior candidate), psi samples of an arbitrary quadratic, maxits=1")
         _, nst = tail_function()
         S.extraction.append(dict(function="critical.find_critical[tail]", sliced="last %d statements of the body (from `def remove_dup` on) compiled as a function of (R, Z, f, xpoint, opoint); nothing dropped" % nst))
+        S.under_contract(FN_MR)
+        for nxp in (1, 2, 3):
+            S.contract("makeRegions[X-point filter, %d found]" % nxp, FN_MR, make_regions_run(nxp), expected_exceptions=(), shape="%d X-points with symbolic psi and positions; polygons.intersect by contract" % nxp)
         for fam in ("monotone", "overshoot", "minimum-away"):
             S.contract("find_critical[tail, %s]" % fam, FN, make_tail_run(fam), shape="2 O-points, 2 X-points, 50-point line profile of the stated family")
 
